@@ -154,6 +154,30 @@ def strip_cast(e):
     return e
 
 
+def le_byte(e):
+    """`x.to_le_bytes()[j]` (array pattern `let [c0, c1, c2, c3] = x.to_le_bytes()` included) read as `(x >> 8j) as u8`"""
+    inner = e
+    casts = []
+    while inner[0] == 'cast':
+        casts.append(inner)
+        inner = inner[1]
+    if inner[0] in ('index', 'field') and is_call(inner[1], '::to_le_bytes') and inner[1][2]:
+        j = inner[2]
+        if isinstance(j, tuple) and j[0] == 'const':
+            j = j[1]
+        elif isinstance(j, str) and j.strip('[]').isdigit():
+            j = int(j.strip('[]'))
+        else:
+            return e
+        x = inner[1][2][0]
+        sh = x if j == 0 else ('bin', 'Shr', x, ('const', 8 * j))
+        out = ('cast', sh, 'u8', 'IntToInt', 'u32')
+        for c in reversed(casts):
+            out = ('cast', out) + tuple(c[2:])
+        return out
+    return e
+
+
 def r08_3(ctx):
     R = ctx.rule('R08.3', 'slice-by-16 lane pairing, 16-byte advance under len >= 16, table-driven tail step, pre/post inversion', floor=20)
     lib = ctx.lib
@@ -240,6 +264,7 @@ def r08_3(ctx):
             vc = once(p.sym.loc_value_at((C,), endpos))
             vb = p.sym.loc_value_at((B,), endpos)
             terms = xor_terms(vc)
+            terms = [(t[0], t[1], le_byte(t[2])) if t[0] == 'index' and isinstance(t[2], tuple) else t for t in terms]
             t16 = [t for t in terms if t[0] == 'index' and t[1][0] == 'index' and t[1][1] == ('citem', 'raw::crc32_table::TABLE16')]
             if t16:
                 seen_fast = True
@@ -386,6 +411,13 @@ def r08_4(ctx, A, pv, masked_fn, crc_fn):
                     not (lib.fns[c[2]].impl and (adt_base(lib.fns[c[2]].impl['self_ty']) == A.builder or adt_base(lib.fns[c[2]].impl['self_ty']) == A.cw)) and
                     any(l is not None and l[:2] == (1, A.b_wtr) for l in arg_locs(fin, c[4]))]
             good = len(imc) == 1 and len(foot) >= 2 and max(foot) < imc[0]
+            if not good and len(imc) == 1 and len(foot) < 2:
+                from rules.common import calls_in_loops
+                hid = calls_in_loops(fin, lambda c: c in emits and not (lib.fns[c].impl and adt_base(lib.fns[c].impl['self_ty']) in (A.builder, A.cw)))
+                mc_bid = [bid for bid, t in fin.calls() if fin.callee(t) == cw_mc[0].path]
+                if hid and mc_bid and all(mc_bid[0] in fin.reachable(start=h_[0]) for h_ in hid):
+                    ctx.undecided(R, 'checksum-after-footer', 'the footer is written from inside a loop; that both words precede the checksum read is not decided', fn=fin)
+                    continue
             ctx.check(R, good, 'checksum-after-footer', 'the checksum must be read after BOTH footer words went through the counting writer (footer writes at %s, checksum read at %s): otherwise the footer is not certified' % (foot, imc), fn=fin)
             # the trailing word is that value
             trail = [c for c in calls[imc[0] + 1:] if c[2] in emits and not (lib.fns[c[2]].impl and adt_base(lib.fns[c[2]].impl['self_ty']) == A.cw)] if imc else []
